@@ -22,7 +22,7 @@ RULE = ("streams: msg (OSC messages with every value tag ifsbhtdScrmTFNI, 0..12 
         "'*', argument restrictors, against matching and non-matching messages); reply (RtData and the capturing "
         "subclass, reply/broadcast/chain va-forms with payloads up to 9000 bytes, i.e. beyond the 8192-byte stack "
         "buffer); disp (Ports::dispatch, twice per case, with no loc / loc / loc of size 0, base_dispatch on and "
-        "off, plain and capturing RtData, through (a) the static sugar tree Root/Mid/Leaf that instantiates every "
+        "off, plain and capturing RtData, through (a0) a ClonePorts table with a \"*\" default handler, (a) the static sugar tree Root/Mid/Leaf that instantiates every "
         "port-sugar callback macro and (b) generated trees of 1..4 tables with 1..12 ports each: hashed (no '#'), "
         "enumerated ('#N' names), colliding names that defeat the perfect hash, nested via a recursion callback, "
         "with replying / silent / no default handler; messages addressed to an existing port with each accepted "
@@ -161,6 +161,24 @@ def static_paths(rng):
     leaf = rng.choice(LEAF)
     nm = leaf[1] + (str(rng.randint(0, 3)) if leaf[2] else "")
     return m + l + nm, leaf
+
+def gen_cloned(rng, dist):
+    """ClonePorts(Leaf::ports, {pc pf po str act, "*"}): hashed table with the library's default-handler idiom"""
+    leafs = {l[1]: l for l in LEAF if not l[2]}
+    r = rng.random()
+    if r < 0.55:
+        leaf = leafs[rng.choice(["pc", "pf", "po", "str", "act"])]
+        path = leaf[1]
+        tags, vals = args_for(rng, leaf, rng.choice(["ok", "ok", "ok", "wrong", "all"]))
+        bump(dist, "disp-cloned-port")
+    else:
+        path = rng.choice(["nosuch", "p", "pcx", "pi", "pt", "", "pc/x", "stri", "zz/yy/xx", "a" * 40])
+        tags = rng.choice(["", "i", "f", "s", "TFNI"]); vals = rnd_args(rng, tags)
+        bump(dist, "disp-cloned-default-handler")
+    base = rng.choice([0, 1])
+    mode = rng.choice("LLZ") + str(base) + rng.choice("PCC")
+    bump(dist, "disp-mode-" + mode[0] + mode[2])
+    return "disp g=4,5,6 S2 %s %s" % (enc_msg((("/" if base else "") + path).encode(), tags, vals).hex(), mode)
 
 def gen_static(rng, dist):
     r = rng.random()
@@ -386,6 +404,7 @@ def gen(rng, tier, dist):
     out = ["cbs g=5"]
     for _ in range(700 * scale):  out.append(gen_static(rng, dist))
     for _ in range(900 * scale):  out.append(gen_generated(rng, dist))
+    for _ in range(150 * scale):  out.append(gen_cloned(rng, dist))
     for _ in range(500 * scale):  out.append(gen_msg(rng, dist))
     for _ in range(250 * scale):  out.append(gen_match(rng, dist))
     for _ in range(60 * scale):   out.append(gen_reply(rng, dist))
@@ -554,7 +573,7 @@ LEVEL_TEXT = ("Proved for the call graph GCC emits for the current source (-O2 -
               "sugar callbacks, RtData::reply/broadcast/chain, every ThreadLink method) to malloc/calloc/realloc/free/"
               "posix_memalign/aligned_alloc/operator new/delete/pthread_mutex_lock/trylock/__cxa_allocate_exception/"
               "std::__throw_*/std::string growth (C03_no_forbidden_reachable); every reachable symbol is either defined in "
-              "the analysed code or one of 13 listed libc leaf functions (C03_reachable_closed_world); every reachable "
+              "the analysed code or an allow-listed libc leaf function - 12 are reached: memcpy memset strlen strcmp strncmp strchr strrchr strstr strncpy strtol strtod __ctype_b_loc (C03_reachable_closed_world); every reachable "
               "indirect call site is resolved by the table (C03_indirect_calls_resolved); only edges into abort-only "
               "functions are left out (C03_excluded_edges_abort_only).  The table is validated on every run by counting "
               "allocator and mutex calls while generated trees, messages and rings are driven through every entry point.")
